@@ -297,4 +297,27 @@ theorem circ_D_order {ψ θ : ℝ} (hψ0 : 0 ≤ ψ) (hψ : ψ < 2 * Real.pi) (h
     have := Real.sin_nonpos_of_nonpos_of_neg_pi_le (x := θ / 2 - ψ / 2) (by linarith) (by linarith)
     linarith
 
+/-! ### round 6d: linear isometries -/
+
+/-- a linear map of vectors that preserves the dot product (rotations, reflections and their products) -/
+structure LinIso (Q : Vec ℝ → Vec ℝ) : Prop where
+  map_add : ∀ u v, Q (add u v) = add (Q u) (Q v)
+  map_sub : ∀ u v, Q (sub u v) = sub (Q u) (Q v)
+  map_smul : ∀ (k : ℝ) v, Q (smul k v) = smul k (Q v)
+  map_dot : ∀ u v, dot (Q u) (Q v) = dot u v
+
+/-- the centre of `arc_length_3point` written with dot products only: `(a × b) × a = |a|² b − (a·b) a` -/
+theorem arc3Centre_dotform (pS pB pE : Vec ℝ) :
+    arc3Centre pS pB pE =
+      add (add pS (smul (1 / 2) (sub pB pS)))
+        (smul ((nsq (sub pE pS) - dot (sub pB pS) (sub pE pS)) / (2 * arc3Denom pS pB pE))
+          (sub (smul (nsq (sub pB pS)) (sub pE pS)) (smul (dot (sub pB pS) (sub pE pS)) (sub pB pS)))) := by
+  unfold arc3Centre
+  apply Vec.ext' <;> simp only [add, sub, smul, unitVec, cross, nsq, dot] <;> ring
+
+/-- the side test of `arc_length_3point` written with dot products only (Binet–Cauchy) -/
+theorem arc3SideTest_dotform (r1 r2 r3 : Vec ℝ) :
+    arc3SideTest r1 r2 r3 = nsq r1 * dot r2 r3 - dot r1 r3 * dot r1 r2 := by
+  simp only [arc3SideTest, nsq, dot, cross]; ring
+
 end CBV.C08
